@@ -11,6 +11,7 @@ package api
 import (
 	"encoding/json"
 	"fmt"
+	"github.com/gofrs/uuid"
 	"net/url"
 	"sort"
 	"strings"
@@ -932,10 +933,34 @@ func c04Root(i int, path []c04Step) *c04State {
 func TestC04(t *testing.T) {
 	run := ev.New("C04", "model_checking")
 	r := c04NewRun(run)
-	pool := &axServerPool{t: t}
+	// "per-network": a second network on the same database holds two relationships (one spelled exactly like a
+	// tuple of the alphabet) for the whole search; no history in the default network may list or remove them
+	T := c04Universe()
+	bystander := uuid.Must(uuid.FromString("cccccccc-cccc-4ccc-8ccc-cccccccccccc"))
+	var bystanderChecks atomic.Int64
+	pool := &axServerPool{t: t, multi: true, init: func(s *apih.Server) {
+		s.AddNetwork(bystander)
+		for _, tp := range []*ketoapi.RelationTuple{T[0], axID("n1", "bystander-object", "r", "bystander-user")} {
+			if rr := s.ClientFor(bystander).Create(tp); rr.Status != 201 {
+				t.Fatalf("seeding the bystander network: %s", rr)
+			}
+		}
+	}}
+	r.reset = func(s *apih.Server) { s.TruncateTuples(s.DefaultNetwork()) }
+	inner := r.afterStep
+	r.afterStep = func(r *c04Run, s *apih.Server, next *refsem.RefStore, path []c04Step, rot int) {
+		inner(r, s, next, path, rot)
+		bystanderChecks.Add(1)
+		if rows := s.Rows(bystander); len(rows) != 2 {
+			r.cand(c04Cand{Sig: "per-network:rows-of-another-network-changed", What: fmt.Sprintf("a history in the default network left %d of the 2 relationships of another network on the same database", len(rows)), Path: path})
+			s.TruncateTuples(bystander)
+			for _, tp := range []*ketoapi.RelationTuple{T[0], axID("n1", "bystander-object", "r", "bystander-user")} {
+				s.ClientFor(bystander).Create(tp)
+			}
+		}
+	}
 
 	// roots: the empty store and two seeded stores (created through the API)
-	T := c04Universe()
 	seed1 := c04SeedOp("SEED1 [+t0,+t4,+t5,+t5]", T[0], T[4], T[5], T[5])
 	seed2 := c04SeedOp("SEED2 [+t0..+t6]", T...)
 	roots := []*c04State{c04Root(0, nil), c04Root(1, []c04Step{{Op: seed1}}), c04Root(2, []c04Step{{Op: seed2}})}
@@ -958,6 +983,7 @@ func TestC04(t *testing.T) {
 		"a tuple carrying both subject_id and subject_set, an unknown PATCH action, an UNSPECIFIED gRPC action, a REST delete without namespace parameter and an absent gRPC query are not covered by the statement: either outcome is accepted, but an error must leave the store unchanged and an accepted request must have one of the modelled effects",
 		"listing with an unknown namespace may fail or return nothing (no demand)",
 		"write visibility uses a rewrite-free namespace configuration: stored => check allowed; not reachable through direct tuples and subject-set indirection => denied; reachable-but-not-stored is not judged here (C01)",
+		"a second network with two relationships shares the database during the whole search (one of them spelled like a tuple of the alphabet): the default network's listings must not contain them and they must still be there after every transition (the full cross-network invariant is C06)",
 		"canonical state caps multiplicities at 2; the database state is assumed to be a function of the canonical state up to row order and unreferenced UUID mappings",
 	)
 	var names []string
@@ -966,6 +992,7 @@ func TestC04(t *testing.T) {
 	}
 	run.Sample(map[string]any{"alphabet": names})
 	run.Finish(map[string]any{
+		"bystander_network_checks":               int(bystanderChecks.Load()),
 		"states":                                 len(res.states),
 		"transitions":                            int(r.transitions.Load()),
 		"traces_validated_against_impl":          int(r.replays.Load()),
